@@ -66,6 +66,28 @@ fn run_session(sc: &Scenario) -> Outcome {
         if let Some(Some(Ok(s))) = signed.get(bi) {
             out.count("c03.signed_artefacts_validated", 1);
             report(strict::validate_tx(&s.bytes), "signed transaction", b.op, &mut out);
+            // Byron owners may also sign with legacy (Daedalus-style) keys: the same transaction with its
+            // bootstrap witnesses made by that helper
+            if s.n_bootstrap > 0 {
+                if let (Some(tx), Ok(v)) = (&b.tx, crate::oracle::TxView::parse(&s.bytes)) {
+                    let th = csl::TransactionHash::from_bytes(v.body_hash().to_vec()).unwrap();
+                    let mut bw = csl::BootstrapWitnesses::new();
+                    for a in &s.required.byron {
+                        if let Some(bm) = wallet::byron_mat_by_addr(a, sc.world.magic) {
+                            if let Ok(dk) = csl::LegacyDaedalusPrivateKey::from_bytes(&bm.xprv.as_bytes()) {
+                                bw.add(&csl::make_daedalus_bootstrap_witness(&th, &bm.addr, &dk));
+                            }
+                        }
+                    }
+                    if bw.len() > 0 {
+                        let mut ws = tx.witness_set();
+                        ws.set_bootstraps(&bw);
+                        let t2 = csl::Transaction::new(&tx.body(), &ws, tx.auxiliary_data());
+                        out.count("c03.daedalus_signed_artefacts_validated", 1);
+                        report(strict::validate_tx(&t2.to_bytes()), "transaction signed with legacy Daedalus keys", b.op, &mut out);
+                    }
+                }
+            }
         }
         placement(sc, &h, b, &bytes, &mut out);
     }
